@@ -89,19 +89,47 @@ func gen(g *common.Gen) {
 }
 
 func genHistory(g *common.Gen, r *common.Rand) {
-	alpha := []string{"a", "b"}
+	alpha := []enc.Component{comp("a"), comp("b")}
 	if r.Chance(1, 4) {
-		alpha = []string{"a", "b", "c"}
+		alpha = []enc.Component{comp("a"), comp("b"), comp("c")}
 	}
+	// "twin" components: different components that a sloppy trie key would merge — the same number
+	// in two encoding widths (seg=%01 / seg=%00%01 print alike), a generic component whose VALUE is
+	// the TLV encoding of a typed one (0x32 0x01 0x01 = seg=%01), one that spells its URI form, and
+	// the same value under two types.
+	twins := false
+	if r.Chance(1, 5) {
+		twins = true
+		alpha = []enc.Component{
+			{Typ: enc.TypeSegmentNameComponent, Val: []byte{1}},
+			{Typ: enc.TypeSegmentNameComponent, Val: []byte{0, 1}},
+			{Typ: enc.TypeGenericNameComponent, Val: []byte{0x32, 0x01, 0x01}},
+			comp("seg=1"),
+			comp("a"),
+			{Typ: 9, Val: []byte("a")},
+		}
+	}
+	// every fourth history runs on the engine's test clock (std/engine/dummy.Timer) instead of the
+	// real timer: the clock moves only with the ops, so ops can stand EXACTLY on a timer instant
+	dummyClock := r.Chance(1, 4)
 	uni := func(minD, maxD int) enc.Name {
 		d := r.Range(minD, maxD)
 		n := enc.Name{}
 		for k := 0; k < d; k++ {
-			n = append(n, comp(common.Pick(r, alpha)))
+			n = append(n, common.Pick(r, alpha))
 		}
 		return n
 	}
-	g.Op("new")
+	if dummyClock {
+		g.Op("new dummy")
+		g.Stat("history-dummy-clock")
+	} else {
+		g.Op("new")
+		g.Stat("history-real-timer")
+	}
+	if twins {
+		g.Stat("history-twin-names")
+	}
 	nops := r.Range(10, 40)
 	var t int64
 	fires := map[int64]bool{}
@@ -124,6 +152,24 @@ func genHistory(g *common.Gen, r *common.Rand) {
 			dt = int64(r.Range(1000000, 5000000))
 		}
 		t += dt
+		if dummyClock {
+			// stand exactly on the instant of a pending timeout event / on a deadline (the test clock
+			// runs an event only when its time is strictly past)
+			if r.Chance(1, 3) {
+				var c []int64
+				for _, p := range pend {
+					if p.fire >= t-dt {
+						c = append(c, p.fire, p.fire-marginUs)
+					}
+				}
+				if len(c) > 0 {
+					if x := common.Pick(r, c); x >= t-dt {
+						t = x
+					}
+				}
+			}
+			return
+		}
 		for fires[t] {
 			t++
 		}
@@ -137,7 +183,7 @@ func genHistory(g *common.Gen, r *common.Rand) {
 		case 0:
 			return clone(p)
 		case 1:
-			return append(clone(p), comp(common.Pick(r, alpha)))
+			return append(clone(p), common.Pick(r, alpha))
 		case 2:
 			if len(p) > 1 {
 				return clone(p[:len(p)-1])
@@ -211,7 +257,7 @@ func genHistory(g *common.Gen, r *common.Rand) {
 				lifeUs = defaultLifeUs
 			}
 			// unique timer instant, distinct from every op instant so far (later ops avoid it)
-			for fires[t+lifeUs+marginUs] {
+			for !dummyClock && fires[t+lifeUs+marginUs] {
 				if life < 0 {
 					t++
 				} else {
@@ -242,7 +288,7 @@ func genHistory(g *common.Gen, r *common.Rand) {
 			case y < 45 && len(pend) > 0:
 				name, kind = clone(common.Pick(r, pend).node), "pending-name"
 			case y < 62 && len(pend) > 0:
-				name, kind = append(clone(common.Pick(r, pend).node), comp(common.Pick(r, alpha))), "longer"
+				name, kind = append(clone(common.Pick(r, pend).node), common.Pick(r, alpha)), "longer"
 			case y < 78 && len(pend) > 0:
 				p := common.Pick(r, pend).node
 				if len(p) > 0 {
@@ -279,7 +325,7 @@ func genHistory(g *common.Gen, r *common.Rand) {
 			if r.Chance(1, 3) && len(attached) > 0 {
 				q := common.Pick(r, attached)
 				if r.Chance(1, 2) {
-					p = append(clone(q), comp(common.Pick(r, alpha)))
+					p = append(clone(q), common.Pick(r, alpha))
 				} else if len(q) > 0 {
 					p = clone(q[:len(q)-1])
 				}
@@ -339,7 +385,7 @@ func genHistory(g *common.Gen, r *common.Rand) {
 			if r.Chance(1, 3) && x.deadline >= t {
 				// boundary: exactly at the deadline, or one µs after it
 				t2 := x.deadline + int64(r.Intn(2))
-				if !fires[t2] {
+				if dummyClock || !fires[t2] {
 					t = t2
 				}
 			}
@@ -355,7 +401,7 @@ func genHistory(g *common.Gen, r *common.Rand) {
 		end = maxDeadline
 	}
 	end += 2000000
-	for fires[end] {
+	for !dummyClock && fires[end] {
 		end++
 	}
 	g.Op("end @%d", end)
@@ -385,6 +431,7 @@ type rxRec struct {
 
 type hist struct {
 	start  time.Time
+	dt     *dummy.Timer // nil: real basic.Timer under synctest
 	face   *dummy.DummyFace
 	eng    *basic.Engine
 	mu     sync.Mutex
@@ -397,6 +444,14 @@ type hist struct {
 }
 
 func (h *hist) rel(t time.Time) int64 { return t.Sub(h.start).Microseconds() }
+
+// now is the engine's clock, relative to the start of the history.
+func (h *hist) now() int64 {
+	if h.dt != nil {
+		return h.rel(h.dt.Now())
+	}
+	return h.rel(time.Now())
+}
 
 func (h *hist) take() []event {
 	h.mu.Lock()
@@ -416,11 +471,16 @@ func (h *hist) drainFace() int {
 	}
 }
 
-func newHist() *hist {
+func newHist(dummyClock bool) *hist {
 	h := &hist{start: time.Now(), rx: map[string]rxRec{}}
 	h.face = dummy.NewDummyFace()
 	passAll := func(enc.Name, enc.Wire, ndn.Signature) bool { return true }
-	timer := basic.NewTimer()
+	var timer ndn.Timer = basic.NewTimer()
+	if dummyClock {
+		h.dt = dummy.NewTimer()
+		h.start = h.dt.Now()
+		timer = h.dt
+	}
 	h.eng = basic.NewEngine(h.face, timer, sec.NewSha256IntSigner(timer), passAll)
 	if err := h.eng.Start(); err != nil {
 		panic("harness: engine start: " + err.Error())
@@ -480,8 +540,12 @@ func (h *hist) execOp(op string) string {
 	t := int64(common.Atoi(last[1:]))
 	f = f[:len(f)-1]
 	// 1. let the clock run to t
-	if now := h.rel(time.Now()); t > now {
-		time.Sleep(time.Duration(t-now) * time.Microsecond)
+	if now := h.now(); t > now {
+		if h.dt != nil {
+			h.dt.MoveForward(time.Duration(t-now) * time.Microsecond)
+		} else {
+			time.Sleep(time.Duration(t-now) * time.Microsecond)
+		}
 	}
 	synctest.Wait()
 	pre := fmtPre(h.take())
@@ -506,7 +570,7 @@ func (h *hist) execOp(op string) string {
 			}
 		}
 		err := h.eng.Express(it, func(a ndn.ExpressCallbackArgs) {
-			e := event{label: label, at: h.rel(time.Now())}
+			e := event{label: label, at: h.now()}
 			switch a.Result {
 			case ndn.InterestResultData:
 				e.kind = "D"
@@ -665,7 +729,7 @@ func execMain(t *testing.T) {
 				w.Flush()
 				var out string
 				if strings.HasPrefix(op, "new") {
-					h = newHist()
+					h = newHist(op == "new dummy")
 					out = "ok"
 				} else if h == nil {
 					out = "skip"
